@@ -635,6 +635,8 @@ class Engine:
                 rv = d.ret
                 d.ret = None
                 out.append((d, rv))
+            elif d.outcome in ("panic",) and False:
+                pass
             else:
                 self._ended.append(d)
         return out
@@ -678,7 +680,7 @@ class Engine:
 
     def finish(self, st, outcome, done, ret=None):
         st.outcome = outcome
-        st.ret = ret
+        st.ret = ret if ret is not None else ("noreturn", outcome)
         done.append(st)
 
     def step_path(self, st, work, done):
@@ -1006,6 +1008,7 @@ class Engine:
 
     def _end(self, st, outcome):
         st.outcome = outcome
+        st.ret = ("noreturn", outcome)
         self._ended.append(st)
         return []
 
